@@ -152,6 +152,8 @@ def cdilog_points(cls, rnd, n):
         return [(1.0, 0.0), (1.0, -0.0)]
     if cls == "tinyMod":
         return [pol(logu(rnd, 1e-300, 1e-10), ang()) for _ in range(n)]
+    if cls == "smallMod":          # between the |z| -> 0 shortcut and O(1) arguments: log(1 - z) must not lose z
+        return [pol(r, ang()) for r in strat(rnd, 1e-10, 1e-3, 2 * n)]
     if cls == "insideHalf":
         return [pol(rnd.uniform(1e-3, 0.49), ang()) for _ in range(n)]
     if cls == "halfCircle":
